@@ -75,6 +75,18 @@ Definition hop_allowedb (a : acl) (h : hop) : bool :=
   end.
 Definition acl_specb (a : acl) (hs : list hop) : bool := forallb (hop_allowedb a) hs.
 
+(** a predicate every hop satisfies ([ProofsAcl.pred_wildb_iff]).  [AclPolicy::parse]
+    documents that such an entry "must be the last entry"; any other predicate may stand
+    anywhere in an ACL string. *)
+Definition pred_wildb (p : pred) : bool :=
+  (p_isd p =? 0)
+  && match p_asn p with Some a => a =? 0 | None => true end
+  && match p_ifs p with
+     | IfAny => true
+     | IfEither a => a =? 0
+     | IfBoth i e => (i =? 0) && (e =? 0)
+     end.
+
 (** known-finding class C16 [empty_hop_list] (see Findings.v) *)
 Definition empty_hop_list (hs : list hop) : bool := match hs with [] => true | _ => false end.
 
